@@ -101,6 +101,27 @@ class C07(Prop):
                 if s in ("1e4294967295",):
                     continue  # 10^(2^32) would be materialised: outside any sane bound
                 out.append(Case("num " + C.hexs(s), "guard", s))
+        # literals PRINTED BY THE TOOL ITSELF: what `Rational::display` writes without the continuation
+        # mark is a decimal literal (with `e<n>` / `e-<n>` forms no hand-written family spells that way);
+        # the reader must accept it and read what it spells (expectation: Spec.Decimal on the TEXT, so a
+        # printing fault — C08's business — cannot make this family alarm). Props/C08Reader.lean is the
+        # theorem side: reader ∘ printer = identity on mark-free text.
+        dl = []
+        for _ in range(700 if tier == "quick" else 12000):
+            a = rng.range(-10 ** rng.range(0, 40), 10 ** rng.range(0, 40))
+            b = 2 ** rng.range(0, 24) * 5 ** rng.range(0, 24) if rng.chance(3, 4) else 10 ** rng.range(0, 40)
+            dl.append(f"disp {a} {b} {rng.range(1, 40)} {rng.range(1, 15)} 1")
+        for k in range(0, 60):
+            for lim, el in ((1, 1), (3, 2), (12, 12), (40, 1)):
+                dl.append(f"disp {10 ** k} 1 {lim} {el} 1")
+                dl.append(f"disp -1 {10 ** k} {lim} {el} 1")
+                dl.append(f"disp {10 ** k + 1} {2 ** (k % 7)} {lim} {el} 1")
+        rc, texts, err = C.run_lines(C.harness_bin(False), dl)
+        seen_p = set()
+        for t in texts:
+            if t.startswith("S ") and "…" not in t and len(t) > 2 and t[2:] not in seen_p:
+                seen_p.add(t[2:])
+                out.append(Case("num " + C.hexs(t[2:]), "printed-by-the-tool", t[2:][:40]))
         # malformed stream
         alpha = "0123456789+-.eE% x"
         for _ in range(800 if tier == "quick" else 8000):
